@@ -121,7 +121,8 @@ ALL_ROUTES = ["inplace", "sympy", "xml"]  # routes of obs events (xml = deepcopy
 # that exists only after add_class first, the class that reaches every other class last --, `add_to`: the class
 # add_class adds `Extra` to ('' = the root), `replace`: the different class of the same name replace_class puts in
 # (same interface, so the classes using it still flatten; other start / parameter values, one more variable and
-# equation), `routes`: routes of obs events, `bounds`: history length, deviations (edit + obs events), edit events.
+# equation), `routes`: routes of obs events, `bounds`: one search per entry (history length, deviations = edit + obs
+# events, edit events); the histories explored are the union.
 LIBS = {
     "flat": {
         "text": LIB,
@@ -134,7 +135,7 @@ LIBS = {
             "Top": "model Top Mid m; Real y; Real w; equation y = 3 * m.s; w = y; end Top;",
         },
         "routes": {"quick": ALL_ROUTES, "thorough": ALL_ROUTES},
-        "bounds": {"quick": (3, 2, 2), "thorough": (4, 3, 2)},
+        "bounds": {"quick": [(3, 2, 2)], "thorough": [(4, 3, 2)]},
     },
     "pkg": {
         "text": LIB_PKG,
@@ -147,7 +148,7 @@ LIBS = {
             "P.M": "model M R a(g = 9); Lib.R r; Real s; Real w; equation s = a.v - r.v; w = s; end M;",
         },
         "routes": {"quick": ["inplace"], "thorough": ALL_ROUTES},
-        "bounds": {"quick": (3, 2, 1), "thorough": (4, 3, 1)},
+        "bounds": {"quick": [(3, 2, 1)], "thorough": [(4, 3, 1), (3, 2, 2)]},
     },
 }
 LIB_ORDER = ["flat", "pkg"]
@@ -296,6 +297,7 @@ def expected(lib, edits, route, cls):
 class World:
     def __init__(self):
         self.lib = "flat"
+        self.bound = None  # (history length, edit events) of the search this history belongs to; None: the widest
         self.trees = None  # parsed by the first event
         self.edits = [()]
         self.parent = [None]
@@ -311,6 +313,8 @@ class World:
         if ev[0] == "lib":
             assert self.trees is None, "lib must be the first event"
             self.lib = ev[1]
+            if len(ev) > 2:
+                self.bound = (ev[2], ev[3])
             self.trees = [fresh_tree(self.lib)]
             return []
         if self.trees is None:
@@ -377,7 +381,7 @@ class World:
 
     def events(self):
         tier = _CFG["tier"]
-        depth, _, max_edits = LIBS[self.lib]["bounds"][tier]
+        depth, max_edits = self.bound or (max(b[0] for b in LIBS[self.lib]["bounds"][tier]), max_edits_of(self.lib, tier))
         n_trees = len(self.edits)
         evs = []
         if n_trees < MAX_TREES:
@@ -429,9 +433,13 @@ def expand(hist):
     return out
 
 
+def max_edits_of(lib, tier):
+    return max(b[2] for b in LIBS[lib]["bounds"][tier])
+
+
 def edit_lists(lib, tier):
     acts = edit_actions(lib, tier)
-    return [tuple(p) for n in range(LIBS[lib]["bounds"][tier][2] + 1) for p in itertools.product(acts, repeat=n)]
+    return [tuple(p) for n in range(max_edits_of(lib, tier) + 1) for p in itertools.product(acts, repeat=n)]
 
 
 def _kinds(lib, tier):
@@ -446,10 +454,11 @@ def run(ctx):
     per_lib = {}
     with common.Pool(init=_init, initargs=(ctx.tier,)) as pool:  # forked now: workers inherit the tables
         for lib in LIB_ORDER:
-            depth, max_dev, _ = LIBS[lib]["bounds"][ctx.tier]
-            init = (("lib", lib),)
-            per_lib[lib] = bfs.search(ctx, pool, expand, init_key=build(init).key(), max_depth=depth, max_dev=max_dev,
-                                      init_hist=init)
+            for depth, max_dev, max_edits in LIBS[lib]["bounds"][ctx.tier]:
+                init = (("lib", lib, depth, max_edits),)  # the bound travels with the history (workers need it)
+                name = "%s:length<=%d,deviations<=%d,edits<=%d" % (lib, depth, max_dev, max_edits)
+                per_lib[name] = bfs.search(ctx, pool, expand, init_key=build(init).key(), max_depth=depth,
+                                           max_dev=max_dev, init_hist=init)
     st = {
         "states": sum(s["states"] for s in per_lib.values()),
         "transitions": sum(s["transitions"] for s in per_lib.values()),
@@ -463,14 +472,12 @@ def run(ctx):
             "per_library": per_lib,
             "traces_validated_against_impl": st["transitions"],
             "evaluations": st["transitions"],
-            "distinct_nontrivial": max(0, st["states"] - len(LIB_ORDER)),
+            "distinct_nontrivial": max(0, st["states"] - len(per_lib)),
             "reference_edit_lists": len(_EXPECT),
             "exhaustive": True,
             "bound": {
                 lib: {
-                    "history_length": LIBS[lib]["bounds"][ctx.tier][0],
-                    "edits_plus_obs_events": LIBS[lib]["bounds"][ctx.tier][1],
-                    "edits": LIBS[lib]["bounds"][ctx.tier][2],
+                    "searches_length_deviations_edits": [list(b) for b in LIBS[lib]["bounds"][ctx.tier]],
                     "obs_events": MAX_OBS,
                     "trees": MAX_TREES,
                     "edit_classes": LIBS[lib]["edit"][ctx.tier],
@@ -480,8 +487,8 @@ def run(ctx):
             },
             "rule": "per library (flat: top-level classes, component types + extends + modifications; pkg: packages, "
             "package-qualified component type and extends, qualified and unqualified import in an enclosing package, class "
-            "nested two levels deep): all histories within the library's bound (length, deviations = edit or obs events, "
-            "edits; <= %d obs, an obs event only where another event can follow it within the length) over "
+            "nested two levels deep): all histories within one of the library's bounds (length, deviations = edit or obs "
+            "events, edits; <= %d obs, an obs event only where another event can follow it within the length) over "
             "{deepcopy(tree_i)} x {add/remove symbol, add/remove equation, remove class, replace class by a different class "
             "of the same name (remove_class + add_class) on the library's edit classes, add class} x {obs: every class of the "
             "live tree_i through the library's routes out of tree.flatten in place (one ComponentRef object per class name "
